@@ -125,10 +125,14 @@ func main() {
 	t0 := time.Now()
 	bin, sites := build(spec)
 	if replay != "" {
-		os.Exit(doReplay(spec, bin, sites, replay))
+		code := doReplay(spec, bin, sites, replay)
+		os.RemoveAll(shmBase())
+		os.Exit(code)
 	}
 	if selftest > 0 {
-		os.Exit(doSelftest(spec, bin, sites, seed*1000003, selftest))
+		code := doSelftest(spec, bin, sites, seed*1000003, selftest)
+		os.RemoveAll(shmBase())
+		os.Exit(code)
 	}
 	budget := spec.QuickSecs
 	if tier == "thorough" {
@@ -140,6 +144,7 @@ func main() {
 	c := &campaign{spec: spec, bin: bin, sites: sites, seedBase: seed * 1000003, tier: tier}
 	c.explore(budget)
 	code := c.report(seed, t0)
+	os.RemoveAll(shmBase())
 	os.Exit(code)
 }
 
@@ -157,7 +162,7 @@ func build(spec *checkSpec) (string, string) {
 			die("setup failed: %v\n%s", err, out)
 		}
 	}
-	inst := filepath.Join(bdir, "inst", spec.Harness)
+	inst := filepath.Join(bdir, "inst", spec.ID)
 	os.RemoveAll(inst)
 	instBin := filepath.Join(bdir, "bin", "instrument")
 	if _, err := os.Stat(instBin); err != nil {
@@ -172,10 +177,15 @@ func build(spec *checkSpec) (string, string) {
 	for _, p := range spec.Inst {
 		args = append(args, "github.com/influxdata/influxdb/v2/"+p)
 	}
-	if out, err := run(dsim, nil, instBin, args...); err != nil {
+	if len(spec.Inst) == 0 {
+		// nothing to instrument: an empty overlay
+		os.MkdirAll(inst, 0o755)
+		os.WriteFile(filepath.Join(inst, "overlay.json"), []byte(`{"Replace":{}}`), 0o644)
+		os.WriteFile(filepath.Join(inst, "sites.json"), []byte(`[]`), 0o644)
+	} else if out, err := run(dsim, nil, instBin, args...); err != nil {
 		die("instrumentation failed (does /repo compile?): %v\n%s", err, out)
 	}
-	bin := filepath.Join(bdir, "bin", spec.Harness+".test")
+	bin := filepath.Join(bdir, "bin", spec.ID+"-"+spec.Harness+".test")
 	bargs := []string{"test", "-c", "-overlay", filepath.Join(inst, "overlay.json"), "-o", bin}
 	if spec.Race {
 		bargs = append(bargs, "-race")
@@ -220,7 +230,7 @@ func (c *campaign) worker(cfg cfgSpec, k, procs int, deadline time.Time, outDir 
 			"DSIM_MODE=seeds", fmt.Sprintf("DSIM_SEEDS=%d:%d:%d", start, 1<<40, procs),
 			"DSIM_CFG="+cfg.Cfg, "DSIM_OUT="+out, fmt.Sprintf("DSIM_DEADLINE=%d", deadline.Unix()),
 			"DSIM_SITES="+c.sites, "DSIM_VIOLDIR="+outDir,
-			"GOMAXPROCS=2",
+			"GOMAXPROCS=2", "GORACE=halt_on_error=1 exitcode=66", "DSIM_SHM="+shmBase(),
 		)
 		if c.spec.MaxRunsPerProc > 0 {
 			cmd.Env = append(cmd.Env, fmt.Sprintf("DSIM_SEEDS=%d:%d:%d", start, c.spec.MaxRunsPerProc, procs))
@@ -260,7 +270,21 @@ func (c *campaign) worker(cfg cfgSpec, k, procs int, deadline time.Time, outDir 
 				// the system under test killed the process (panic in one of its goroutines, runtime fatal
 				// error): the seed re-run from scratch is the replay
 				sig := "process-crash"
-				if i := strings.Index(msg, "panic: "); i >= 0 {
+				if i := strings.Index(msg, "WARNING: DATA RACE"); i >= 0 {
+					// race detector (halt_on_error): name the two accessing functions
+					var fns []string
+					lines := strings.Split(msg[i:], "\n")
+					for li := 0; li+1 < len(lines) && len(fns) < 2; li++ {
+						if strings.Contains(lines[li], " by goroutine ") || strings.Contains(lines[li], " by main goroutine") {
+							fn := strings.TrimSpace(lines[li+1])
+							if j := strings.Index(fn, "("); j > 0 {
+								fn = fn[:j]
+							}
+							fns = append(fns, fn)
+						}
+					}
+					sig = "data-race:" + strings.Join(fns, "<->")
+				} else if i := strings.Index(msg, "panic: "); i >= 0 {
 					line := msg[i:]
 					if j := strings.Index(line, "\n"); j > 0 {
 						line = line[:j]
@@ -407,8 +431,11 @@ func (c *campaign) explore(budget int) {
 		c.seedBase += 1 << 32
 	}
 	c.wall = time.Since(t0)
-	os.RemoveAll("/dev/shm/dsim")
+	os.RemoveAll(shmBase())
 }
+
+// shmBase is this campaign's private scratch area on tmpfs (several campaigns may run at once).
+func shmBase() string { return fmt.Sprintf("/dev/shm/dsim-%d", os.Getpid()) }
 
 func loadFindings() []finding {
 	b, err := os.ReadFile(filepath.Join(root, "known_findings.json"))
@@ -437,7 +464,7 @@ func (c *campaign) replayOnce(file string, strict bool, maxprocs int) (*result, 
 	out := file + fmt.Sprintf(".out.%d", time.Now().UnixNano())
 	defer os.Remove(out)
 	cmd := exec.Command(c.bin, "-test.run", "^TestWorker$", "-test.timeout", "0")
-	cmd.Env = append(os.Environ(), "DSIM_MODE=replay", "DSIM_FILE="+file, "DSIM_OUT="+out, "DSIM_SITES="+c.sites,
+	cmd.Env = append(os.Environ(), "DSIM_MODE=replay", "DSIM_FILE="+file, "DSIM_OUT="+out, "DSIM_SITES="+c.sites, "DSIM_SHM="+shmBase(),
 		fmt.Sprintf("GOMAXPROCS=%d", maxprocs))
 	if strict {
 		cmd.Env = append(cmd.Env, "DSIM_STRICT=1")
@@ -531,7 +558,7 @@ func (c *campaign) report(seed uint64, t0 time.Time) int {
 				final = keep
 				if handled <= 4 && v.Class != "panic" && v.Class != "crash" {
 					cmd := exec.Command(c.bin, "-test.run", "^TestWorker$", "-test.timeout", "0")
-					cmd.Env = append(os.Environ(), "DSIM_MODE=minimise", "DSIM_FILE="+keep, "DSIM_MINOUT="+minOut, "DSIM_SITES="+c.sites, "GOMAXPROCS=2")
+					cmd.Env = append(os.Environ(), "DSIM_MODE=minimise", "DSIM_FILE="+keep, "DSIM_MINOUT="+minOut, "DSIM_SITES="+c.sites, "GOMAXPROCS=2", "DSIM_SHM="+shmBase())
 					done := make(chan error, 1)
 					cmd.Start()
 					go func() { done <- cmd.Wait() }()
@@ -806,7 +833,7 @@ func doSelftest(spec *checkSpec, bin, sites string, base uint64, n int) int {
 					defer wg.Done()
 					cmd := exec.Command(bin, "-test.run", "^TestWorker$", "-test.timeout", "0")
 					cmd.Env = append(os.Environ(), "DSIM_MODE=seeds", fmt.Sprintf("DSIM_SEEDS=%d:%d:%d", base+uint64(k), (n+parts-1)/parts, parts),
-						"DSIM_CFG="+cfg.Cfg, "DSIM_OUT="+outs[k], "DSIM_SITES="+sites, fmt.Sprintf("GOMAXPROCS=%d", mp))
+						"DSIM_CFG="+cfg.Cfg, "DSIM_OUT="+outs[k], "DSIM_SITES="+sites, fmt.Sprintf("GOMAXPROCS=%d", mp), "DSIM_SHM="+shmBase())
 					cmd.Run()
 				}(k)
 			}
